@@ -15,6 +15,7 @@ RULE = ("every GT string over alleles {., 0,1,2,3,7,10} x separators {/,|} x plo
         "(noodles writer; strings noodles cannot encode are counted as skipped). non-trivial = GT is not the reference 0/0")
 
 ALLELES = [".", "0", "1", "2", "3", "7", "10"]
+WIDE = ["256", "257", "65537", "4294967296", "4294967297"]      # indices that wrap to 0 / 1 in u8, u16, u32
 
 
 def all_gts():
@@ -66,8 +67,15 @@ def container_family(rep, tier, rng, gts):
             add("bcf", chunk, b, vecs, nm + " " + ";".join(",".join(r) for r in chunk))
             if bi % 60 == 0:
                 add("bcf", chunk, bgzf_compress(b), vecs, "bgzf " + nm + " " + ";".join(",".join(r) for r in chunk))
-    nvalid = len(impl_lines)
     # malformed / unusual GT texts, one record each (a record error ends the stream)
+    # allele indices around the widths of narrower integer types: must be multiallelic like any index >= 2
+    wide = ["255", "256", "257", "511", "512", "513", "65535", "65536", "65537", "4294967295", "4294967296", "4294967297", "18446744073709551614"]
+    wrows = [[w + "/0", "0/1", "1|" + w] for w in wide] + [[w + "/" + w, "0/1", "./" + w] for w in wide] + [["0/" + w, "0/1", w + "|1"] for w in wide]
+    for bi in range(0, len(wrows), 6):
+        chunk = wrows[bi:bi + 6]
+        vcfw = render_vcf(["a", "b", "c"], chunk)
+        add("vcf", chunk, vcfw, [[g.encode() for g in r] for r in chunk], "vcf wide-allele-indices " + ";".join(",".join(r) for r in chunk))
+    nvalid = len(impl_lines)
     odd = ["|0/1", "/0|1", "+1/0", "00/1", "0//1", "/", "0/", "|", "a/b", "-1/0", "0/1/", "01", "1/+0", "./+1", "..", "./..", "0/.1",
            "18446744073709551615/0", "18446744073709551616/0", "0|18446744073709551616", "99999999999999999999", "0 /1", "0/x", "|.", "/1", "|1/1"]
     for t in odd:
@@ -117,7 +125,8 @@ def check(rep, tier, seed):
     gts = all_gts()
     rep.coverage["exhaustive"] = True
     rep.coverage["gt_strings"] = len(gts)
-    compare_cases(rep, "classify-function", ["classify %s" % g for g in gts], nontrivial=lambda c, m: "0/0" not in c,
+    gts_f = gts + [a + sp + b for a in WIDE + ["0", "1"] for b in WIDE + ["0", "1"] for sp in "/|" if a in WIDE or b in WIDE]
+    compare_cases(rep, "classify-function", ["classify %s" % g for g in gts_f], nontrivial=lambda c, m: "0/0" not in c,
                   classify=lambda c, m, i: "classify:" + m.split()[0], spec=True, both_builds=(tier == "thorough"))
 
     container_family(rep, tier, rng, gts)
